@@ -250,6 +250,9 @@ func runEntry(ep string, ro readOpts, in []byte, seq int) string {
 		n := 0
 		for {
 			if _, err := cr.Next(); err != nil {
+				// a caller that logs the error and asks again must get an error or an end, not a crash
+				cr.Next()
+				cr.Next()
 				break
 			}
 			n++
